@@ -18,6 +18,11 @@ CHECKS = {
          "TLC enumerates (event shape rank 0-2) x (condition shape none / rank 0-2) x (batch shapes of x and of the condition incl. size-1 axes, zero extents, pairs that must be rejected) x sample_shapes, checks the index maps are total, onto and aligned and the key map injective, and writes the maps out; the real log_prob / sample / sample_and_log_prob must have TLC's result shapes, every element must equal the unbatched call on the designated slices, draws must be pairwise distinct and reproducible, non-broadcastable pairs must raise.",
          "Reference values are the same distribution's public methods called with exact (unbatched) shapes. The key schedule (element k uses split(key, n)[k]) is implementation-layer: a different but fresh schedule gives a drift note, not a violation.",
          "DESIGN.md 4.7, 5 (C06)"),
+ "C07": ("model_checking",
+         "TLA+ specification of the elementary bijections over exact rationals (Elementary.tla + Rat.tla) model-checked with TLC; every (configuration, point) state is replayed into the real class and compared with TLC's exact rational; transcendental leaves compared with the documented formula evaluated in NumPy",
+         "TLC checks on a rational grid that the rational-quadratic spline interpolates its knots, has the stated knot derivatives, is the identity outside, is increasing and that forward and inverse select the same piece at every knot and both interval ends (the unclamped bin lookup of the pinned commit is refuted at the lower end); every state (spline at knots / ends / midpoints / quarter points / outside, Affine incl. negative scales and broadcasting, TriangularAffine lower and upper, every permutation of size <= 4 also as a 2x2 array, LeakyTanh branch at +-max_val) is an implementation test with an exact expected value, which pins consistently-wrong-in-both-directions implementations that round-trip and autodiff checks cannot see.",
+         "exp, softplus, tanh, log are evaluated with NumPy/math in float64 for the transcendental leaves (trusted base). Spline knots are installed exactly with eqx.tree_at. The planar constraint is taken from the layer's public get_act_scale (the code's m(x) = -1 + log(1 + softplus(x)) differs from the cited paper's -1 + softplus(x); both satisfy w.u > -1).",
+         "DESIGN.md 4.8, 5 (C07)"),
  "C08": ("model_checking",
          "TLA+ specification of the combinators with exact integer semantics (Combinators.tla: arrays as C-order integer sequences, dyadic affine / additive-condition / permutation leaves, a builder machine over a shape lattice) model-checked with TLC; every program TLC prints is built from the real classes and all four methods compared bit for bit with TLC's integers",
          "TLC enumerates every composition the builder machine grows (depth 1 exhaustively in quick, depth 2 = 1.8e5 programs in thorough, plus simulated depth-3 programs) over leaf kinds x shape lattice x every valid axis incl. negative ones x Partial index kinds x mapped/broadcast Vmap x condition axes, and checks DeclaredShapeIsSemantic, RoundTrip, LogDetsOpposite, MergeChainsSame, InvertSwaps on each; each program is an implementation test whose expected outputs, log2-dets and shapes TLC computed from the definitions (like jnp.stack / slice by slice / only the indexed entries). The shape formulas as found at the pinned commit are refuted by TLC (Stack / Vmap negative axes; repaired by fix: commits).",
